@@ -903,6 +903,16 @@ impl Worker {
                     )
                 }));
 
+                // Events from this batch that were already written to the
+                // poisoned file won't be retried, so they need to be synced here
+                // If they can't be then the batch has failed and can't be retried
+                file.file
+                    .flush()
+                    .map_err(|e| emit_batcher::BatchError::no_retry(e))?;
+                file.file
+                    .sync_all()
+                    .map_err(|e| emit_batcher::BatchError::no_retry(e))?;
+
                 return Err(emit_batcher::BatchError::retry(err, batch));
             }
 
